@@ -309,6 +309,7 @@ Definition lex_rune (s00 : lstate) (r : Z) : lres :=
   | LCommentBlockAsterisk =>
       if r =? 47 then
         LOk (set_state LNormal (append_token (mkTok TEndBlockComment []) (dump_as TComment (write_runes [42; 47] s))))
+      else if r =? 42 then LOk (write_rune 42 s)      (* another asterisk: stay in this mode *)
       else LOk (write_rune r (set_state LCommentBlock (write_rune 42 s)))
   | LFirstFwdSlash => lex_firstslash s r
   | LCommentLine =>
@@ -358,6 +359,10 @@ Fixpoint lex_all (s : lstate) (text : list Z) : lres :=
                  | LErr s' => LErr s'
                  end
   end.
+
+(* lexer.go: inStringOrRune *)
+Definition in_string_or_rune (s : lstate) : bool :=
+  match l_state s with LStrLit | LStrEscaped | LRuneLit | LRuneEscaped => true | _ => false end.
 
 Definition lres_state (x : lres) : lstate := match x with LOk s => s | LErr s => s end.
 Definition lres_ok (x : lres) : bool := match x with LOk _ => true | LErr _ => false end.
